@@ -219,6 +219,11 @@ class Executor:
         return [Res("val", VGlobal(n), st)]
 
     def e_JoinedStr(self, e, st):
+        h = self.spec.globals.get("__fstring__")
+        if h is not None:
+            v = h(self, st, ast.unparse(e))
+            if v is not None:
+                return [Res("val", v, st)]
         return [Res("val", VOpaque("fstring"), st)]
 
     def e_Tuple(self, e, st, is_list=False):
